@@ -372,4 +372,41 @@ pub fn teval(args: &[String]) {
         }
         println!("{{\"kind\":\"te\",\"case\":{},{},\"n_requested\":{},\"status\":\"{:?}\",\"branch\":\"{}\",\"finding_key\":\"{}\",\"ok\":{},\"why\":{:?}}}", case, desc(&s), pts.len(), sol.status, branch, key, why.is_empty(), why);
     }
+    far_from_origin(seed, cases);
+}
+
+/// slowly varying right-hand side: the step size grows until single steps are as long as the distance to the origin
+struct Drift;
+impl IVP for Drift {
+    fn ode(&self, x: f64, y: &[f64], d: &mut [f64]) { d[0] = 1e-9 * (1.0 + (1e-7 * x).sin()) - 1e-12 * y[0]; }
+}
+
+/// C05 far from the origin: spans whose end points are 1e2..1e6 away from zero (one ulp there exceeds the handler's
+/// absolute 1e-12), requested times `x0`, a few interior points and `xend`.  A successful run reports exactly those.
+fn far_from_origin(seed: u64, cases: usize) {
+    let mut rng = Rng(seed ^ 0xFA20);
+    for case in 0..(cases * 3) {
+        let method = *rng.pick(&ALL_METHODS);
+        let sc = 10f64.powf(rng.range(2.0, 6.0));
+        let x0 = (rng.unit() - 0.5) * sc;
+        let xend = (rng.unit() - 0.5) * sc * 3.0;
+        if x0 == xend { continue; }
+        let dirn = (xend - x0).signum();
+        let mut pts = vec![x0];
+        let mut inner: Vec<f64> = (0..rng.below(4)).map(|_| x0 + (xend - x0) * rng.unit()).collect();
+        inner.sort_by(|a, b| if dirn > 0.0 { a.partial_cmp(b).unwrap() } else { b.partial_cmp(a).unwrap() });
+        pts.extend(inner);
+        pts.push(xend);
+        pts.dedup();
+        let mut o = Options::builder().method(method).rtol(1e-4).atol(1e-6).build();
+        if method == Method::RK4 { o.first_step = Some((xend - x0).abs() / (1 + rng.below(40)) as f64); }
+        o.t_eval = Some(pts.clone());
+        let sol = match solve_ivp(&Drift, x0, xend, &[1.0], o) { Ok(r) => r, Err(_) => continue };
+        let mut why = String::new();
+        if sol.status == Status::Success && sol.t != pts {
+            why = format!("Success on [{:?}, {:?}] but reported times {:?} differ from the requested {:?}", x0, xend, sol.t, pts);
+        }
+        println!("{{\"kind\":\"te\",\"case\":{},\"problem\":\"Drift\",\"method\":\"{}\",\"x0\":{:?},\"xend\":{:?},\"n_requested\":{},\"status\":\"{:?}\",\"branch\":\"far-from-origin\",\"finding_key\":\"{}\",\"ok\":{},\"why\":{:?}}}",
+            700000 + case, method_name(method), x0, xend, pts.len(), sol.status, if why.is_empty() { "" } else { "c05-far-from-origin" }, why.is_empty(), why);
+    }
 }
